@@ -12,6 +12,7 @@ import (
 	"strings"
 	"sync"
 	"sync/atomic"
+	"time"
 
 	"cvssmc/internal/dump"
 	"cvssmc/internal/ev"
@@ -100,6 +101,7 @@ func judge(r *ev.Run, G *gprops, gs *gstats, ver, level int, s string) (recv any
 			if _, dup := gs.leftSeen.LoadOrStore(h, true); !dup {
 				atomic.AddInt64(&gs.leftBehind, 1)
 				checkLeftBehind(r, ver, level, s, recv)
+				checkRedecode(r, ver, level, s, recv)
 			}
 		}
 	}
@@ -186,6 +188,28 @@ func checkLeftBehind(r *ev.Run, ver, level int, s string, recv any) {
 		}
 		if incompleteObject(view, ver, lv) && (o.GetErr == "nil" || o.EncErr == "nil" || o.Score != 0) {
 			r.Violate(ev.Violation{Kind: "fabricated-result", Case: with(strCase(ver, level, s), "view", spec.LevelNames[lv]), Observed: o.String(), Expected: "GetError and Encode report an error, Score()==0 (a metric still holds its unknown/invalid value)"})
+		}
+	}
+}
+
+// checkRedecode: a decoder that has failed once is still a decoder obtained from a constructor;
+// decoding again through it (a valid vector, the failed input, an empty string) must return
+// without panicking exactly one of object and error.  What it returns is not specified.
+func checkRedecode(r *ev.Run, ver, level int, s string, recv any) {
+	again := []string{seeds(ver)[0], s, ""}
+	if level > 0 {
+		again[0] = seeds(ver)[level]
+	}
+	for _, a := range again {
+		obj, err, pan := lib.Decode(recv, a)
+		if pan != "" {
+			r.Violate(ev.Violation{Kind: "second-decode-panics", Case: with(strCase(ver, level, s), "second_input", a), Observed: "panic: " + pan, Expected: "an error or an object",
+				GoTest: fmt.Sprintf("d := New…(); d.Decode(%q); d.Decode(%q) // must not panic", s, a)})
+			return
+		}
+		if (obj == nil) == (err == nil) {
+			r.Violate(ev.Violation{Kind: "object-xor-error", Case: with(strCase(ver, level, s), "second_input", a), Observed: fmt.Sprintf("object nil=%v, error nil=%v", obj == nil, err == nil), Expected: "exactly one of object and error"})
+			return
 		}
 	}
 }
@@ -289,7 +313,15 @@ type graphCfg struct {
 type gresult struct {
 	states, live, transitions, accepting, terminal, boundary int64
 	depth                                                    int
+	capped                                                   string // non-empty: the search was cut short (reported, exhaustive:false)
 }
+
+// caps of one graph search: a change that makes every prefix a distinct state (e.g. an object that
+// stores its input text) must end in an honest "not exhaustive", not in an endless run
+var (
+	graphMaxStates = int64(6_000_000)
+	graphMaxTime   = 20 * time.Minute
+)
 
 func splitPath(ver int, s string) []string {
 	if s == "" && ver == 2 {
@@ -333,7 +365,12 @@ func explore(r *ev.Run, G *gprops, gs *gstats, cfg graphCfg) gresult {
 			}
 		}
 	}
+	t0 := time.Now()
 	for len(frontier) > 0 {
+		if atomic.LoadInt64(&res.states) > graphMaxStates || time.Since(t0) > graphMaxTime {
+			res.capped = fmt.Sprintf("stopped at BFS depth %d with %d unexpanded states: cap of %d states / %s reached", res.depth, len(frontier), graphMaxStates, graphMaxTime)
+			break
+		}
 		res.depth++
 		var mu sync.Mutex
 		var next []node
@@ -412,6 +449,10 @@ func addResult(r *ev.Run, name string, g gresult) {
 	r.Add("accepting_transitions", g.accepting)
 	r.Add("terminal_transitions", g.terminal)
 	r.Add("boundary_states_not_expanded", g.boundary)
+	if g.capped != "" {
+		r.Set("exhaustive", false)
+		r.Set("cap_hit_"+name, g.capped)
+	}
 	r.Set("graph_"+name, fmt.Sprintf("states=%d expanded=%d transitions=%d accepting=%d terminal=%d boundary=%d bfs_depth=%d", g.states, g.live, g.transitions, g.accepting, g.terminal, g.boundary, g.depth))
 }
 
